@@ -147,14 +147,14 @@ example : (compareTop trCexCfg trLeafA trLeafB).map (fun r => (r.diffs, r.otherU
     = .ok (1, [[.key ['a'], .idx 3]]) := by decide
 example : (compareTop { trCexCfg with tr := [] } trLeafA trLeafB).map (·.diffs) = .ok 5 := by decide
 
-/-- with a composite key the keyed statement fails even on lists of records: the key is built from the
-TRANSFORMED field, which must be a `str` — the identity function on the `int` key field `id` raises `TypeError`
-(`str + int`), the plain run on the (identical) mapped tree returns normally -/
-theorem C10_transform_keyed_ck_cex :
-    recOnly trkCkA = true ∧ LeafTransform trkCkCfg ∧ compareTop trkCkCfg trkCkA trkCkA = .error .TypeError ∧
+/-- the former counter-example `C10_transform_keyed_ck_cex` (finding C10-c(b)): a transform that returns a non-`str`
+for a key field (the identity function on the `int` key field `id`) used to raise `TypeError` (`str + int`); with
+fix C08-b the transformed field goes through the JSON text, the run returns like the plain run on the mapped tree -/
+theorem C10_transform_keyed_ck_fixed :
+    recOnly trkCkA = true ∧ LeafTransform trkCkCfg ∧ (compareTop trkCkCfg trkCkA trkCkA).map (·.diffs) = .ok 0 ∧
       mapT trkCkCfg [] trkCkA = trkCkA ∧
       (compareTop { trkCkCfg with tr := [] } (mapT trkCkCfg [] trkCkA) (mapT trkCkCfg [] trkCkA)).map (·.diffs) = .ok 0 :=
-  ⟨trk_ck_cex.1, trkCkCfg_leaf, trk_ck_cex.2.1, trk_ck_cex.2.2.1, trk_ck_cex.2.2.2⟩
+  ⟨trk_ck_fixed.1, trkCkCfg_leaf, trk_ck_fixed.2.1, trk_ck_fixed.2.2.1, trk_ck_fixed.2.2.2⟩
 
 /-- non-vacuity: lists of records whose names agree after `lower`, one changed value, one extra record -/
 example : LeafTransform trkCfg := trkCfg_leaf
